@@ -265,7 +265,15 @@ def run_lengths(shard, res, only=None):
 
 
 # ---- histories of requests on ONE WsgiApplication: what an earlier request left behind (cached documents, flags)
-HIST_KINDS = ['wsdl', 'ok', 'gen', 'fault', 'invalid', 'unknown', 'malformed']
+# ('gen-fault' / 'gen-crash': a generator method that raises a Fault / another exception before its first yield)
+HIST_KINDS = ['wsdl', 'ok', 'gen', 'fault', 'invalid', 'unknown', 'malformed', 'gen-fault', 'gen-crash']
+
+
+def _gen_raising(exc):
+    def g(ctx, a):
+        raise exc()
+        yield 1     # (makes it a generator function)
+    return g
 
 
 def run_histories(shard, res, only=None):
@@ -293,10 +301,14 @@ def run_histories(shard, res, only=None):
             b.rec.reset()
             b.rec.script['m'] = ('raise', lambda: Fault('Client.Custom', 'nope')) if kind == 'fault' else ('ret', 6)
             b.rec.script['g'] = ('gen', [1, 2])
+            if kind == 'gen-fault':
+                b.rec.script['g'] = ('call', _gen_raising(lambda: Fault('Client.Custom', 'nope')))
+            elif kind == 'gen-crash':
+                b.rec.script['g'] = ('call', _gen_raising(lambda: KeyError('boom')))
             if kind == 'wsdl':
                 env = drv.environ('GET', '/app', 'wsdl', b'', content_type=None, content_length=None)
             else:
-                body = document(fam, {'ok': 'success'}.get(kind, kind), 2)
+                body = document(fam, {'ok': 'success', 'gen-fault': 'gen', 'gen-crash': 'gen'}.get(kind, kind), 2)
                 env = drv.environ('POST', '/', '', body, content_type='application/json' if fam == 'json' else 'text/xml; charset=utf-8')
             wsgiref.util.setup_testing_defaults(env)
             if kind == 'wsdl':
@@ -332,12 +344,15 @@ def run_histories(shard, res, only=None):
                 V('content-length', '', 'Content-Length %s, body has %d bytes' % (hd['content-length'], len(o.out)))
                 ok = False
             entered = len(b.rec.calls)
-            if entered != (1 if kind in ('ok', 'gen', 'fault') else 0):
+            if entered != (1 if kind in ('ok', 'gen', 'fault', 'gen-fault', 'gen-crash') else 0):
                 V('function-ran', '%s|%d' % (kind, entered), 'user function ran %d times' % entered)
                 ok = False
             want_status = {'wsdl': '200', 'ok': '200', 'gen': '200'}.get(kind)
             if want_status and not (o.status or '').startswith(want_status):
                 V('status', (o.status or '')[:3], 'status %r' % (o.status,))
+                ok = False
+            if kind in ('gen-fault', 'gen-crash', 'fault') and (o.status or '').startswith('2'):
+                V('status', 'fault-sent-as-2xx', 'the method raised before producing anything, the status is %r' % (o.status,))
                 ok = False
             if not ok:
                 break
